@@ -80,6 +80,26 @@ CHECKS = {
         note="tolerances follow the 2dp average price the code and the exchange API carry; each-way with dead heat outside",
         design="4/C08",
     ),
+    "C16": dict(
+        category="exploration",
+        technique="Hypothesis-generated blotters of real order objects compared with a brute-force exposure oracle "
+                  "(all fill subsets x all winner sets) and metamorphic exclusion / new_order relations",
+        text="Tens of thousands (quick) to >10^6 (thorough) generated blotters, simulated and live order representations, all "
+             "statuses and order types; the six get_exposures figures, selection_exposure and market_exposure are recomputed "
+             "independently from the generated description. Held on everything explored.",
+        note="starting-price orders modelled by their liability as the statement says; 2dp rounding tolerances stated in evidence",
+        design="4/C16",
+    ),
+    "C19": dict(
+        category="exploration",
+        technique="Hypothesis-generated strategy names / separators / loop sizes with validity, uniqueness and a round trip "
+                  "through process_current_orders of a second framework instance; bounded thread stress",
+        text="Arbitrary unicode and very long names, every separator class, up to 2000 orders per loop under both clocks; "
+             "references replayed as real CurrentOrder resources into a second Flumine instance. Thread uniqueness is sampled. "
+             "Held on everything explored.",
+        note="exchange character set / 32-character limit as documented in the repository; uniqueness across threads is a bounded stress test",
+        design="4/C19",
+    ),
 }
 
 NOT_BUILT_REASON = "check not built yet (build in progress; see DESIGN.md section 4)"
